@@ -143,7 +143,26 @@ Proof.
   - destruct templates_one_line as [_ [_ [Hp Hq]]]. rewrite !nbk_app. rewrite Hp, Hq, (replace_newline_nbk r H). reflexivity.
 Qed.
 
-Local Opaque depr_with depr_without.
+(* the document handed to the reST parser: directive line, line break, indented body *)
+Definition doc_lit1 : text := [46; 46; 32; 100; 101; 112; 114; 101; 99; 97; 116; 101; 100; 58; 58; 32].
+Definition doc_lit2 : text := [10; 32; 32; 32].
+
+Local Transparent xid_start xid_continue line_breaks py_space rst_ws.
+Lemma doc_shape : forall version t, deprecation_doc version t = doc_lit1 ++ version ++ doc_lit2 ++ t.
+Proof.
+  intros. unfold deprecation_doc, fmt, depr_doc. cbn [flat_map fst snd].
+  change (9 =? 9) with true. change (2 =? 9) with false. change (4 =? 9) with false. cbv iota.
+  change (2 =? 2) with true. change (4 =? 2) with false. change (4 =? 4) with true. cbv iota.
+  rewrite !app_nil_r. reflexivity.
+Qed.
+
+Lemma doc_lit1_nbk : nbk doc_lit1 = true.
+Proof. vm_compute. reflexivity. Qed.
+
+Lemma doc_lit2_break : forall t, count_breaks (doc_lit2 ++ t) = S (count_breaks t).
+Proof. intro t. reflexivity. Qed.
+
+Local Opaque xid_start xid_continue line_breaks py_space rst_ws depr_with depr_without.
 Theorem deprecate_one_line : forall name package version repl t,
   deprecation_text name package version repl = Some t ->
   nbk name = true -> nbk version = true ->
@@ -160,21 +179,9 @@ Proof.
       apply clean_replacement_nbk. apply Hr. reflexivity.
     - destruct (f =? 0); [exact Hn|]. destruct (f =? 1); [apply identifier_nbk; exact Ep|].
       destruct (f =? 2); [exact Hv|]. reflexivity. }
-  unfold deprecation_doc, fmt, depr_doc. cbn [flat_map fst snd].
-  change (9 =? 9) with true. change (2 =? 9) with false. change (4 =? 9) with false. cbv iota.
-  change (2 =? 2) with true. change (4 =? 2) with false. change (4 =? 4) with true. cbv iota.
-  rewrite !app_nil_r. simpl app.
-  match goal with |- count_breaks (?a :: ?rest) = _ => idtac end.
-  (* the directive line: a literal without breaks, then the version *)
-  repeat match goal with
-  | |- count_breaks (?c :: ?rest) = _ =>
-    first [ change (count_breaks (c :: rest)) with (count_breaks rest) ]
-  end.
+  rewrite doc_shape. rewrite count_breaks_nbk_app by exact doc_lit1_nbk.
   rewrite count_breaks_nbk_app by exact Hv.
-  cbn [count_breaks]. change (is_break 10) with true. cbv iota.
-  change ((10 =? 13) && (32 =? 10)) with false. cbv iota.
-  change (is_break 32) with false. cbv iota.
-  rewrite <- (app_nil_r t). rewrite count_breaks_nbk_app by exact Ht. reflexivity.
+  rewrite doc_lit2_break. rewrite <- (app_nil_r t). rewrite count_breaks_nbk_app by exact Ht. reflexivity.
 Qed.
 
 Local Transparent xid_start xid_continue line_breaks py_space rst_ws depr_with depr_without.
